@@ -347,6 +347,32 @@ class tt_ind2sub(Contract):
         yield "inverse-of-sub2ind", S.forall(0, k, lambda i: RAV(srow, UNR(srow, wrap(old(i)))) == wrap(old(i)))
 
 
+def _row_ghosts(S, A, B):
+    """unique / argsort ghosts of the body, looked up by the matrix they were computed from (so that the
+    witness lemmas do not depend on the order in which the body happens to call the primitives)."""
+    g = S.body_ghosts
+    us, ass = g.get("unique@src", []), g.get("argsort@src", [])
+
+    def uniq(M):
+        for e in us:
+            if e["rowfn"] is getattr(M, "rowfn", None):
+                return e
+        return None
+
+    def asort(u):
+        if u is None or u["idx_arr"] is None:
+            return None
+        for e in ass:
+            if e["src"] is u["idx_arr"]:
+                return e["ghost"]
+        return None
+    uA, uB = uniq(A), uniq(B)
+    pA, pB = asort(uA), asort(uB)
+    if uA is None or uB is None or pA is None or pB is None:
+        return None
+    return uA["ghost"], uB["ghost"], pA, pB
+
+
 def _distinct_rows(S, A, tag):
     """requires-style assumption: the rows of A are pairwise distinct (ghost: position of a row)."""
     n = A.shape[0]
@@ -417,13 +443,12 @@ class tt_intersect_rows(Contract):
             [t], z3.Implies(z3.And(0 <= t, T.tz(t < L)), z3.And(0 <= T.tz(ret.fn(t)), T.tz(ret.fn(t) < n),
                                                           T.Exists([j], z3.And(0 <= j, T.tz(j < m), rb(j) == ra(T.tz(ret.fn(t))))))))
         g = S.body_ghosts
-        if len(g.get("unique", [])) == 2 and len(g.get("argsort", [])) == 2 and g.get("select") and g.get("call:tt_ismember_rows"):
+        rg = _row_ghosts(S, A, B)
+        if rg is not None and g.get("select") and g.get("call:tt_ismember_rows"):
             # Proof by explicit witnesses.  Row j of B is unique row invB(j), which sits at position
             # s(j) = pinvB(invB(j)) of the first-occurrence ordering B' that is searched; A' = A because
             # the rows of A are distinct (pigeonhole); the rank of s(j) among the matched rows is rk(s(j)).
-            (mA, idxA, invA), (mB, idxB, invB) = g["unique"]
-            # (argument evaluation order: argsort(idxB) is executed before argsort(idxA))
-            (pB, pinvB), (pA, pinvA) = g["argsort"]
+            (mA, idxA, invA), (mB, idxB, invB), (pA, pinvA), (pB, pinvB) = rg
             (_, sel, rk) = g["select"][-1]
             matched, loc = g["call:tt_ismember_rows"][0]
             sj = lambda j_: pinvB(invB(j_))
@@ -493,10 +518,10 @@ class tt_setdiff_rows(Contract):
             ret.sorted_strict = True
             return
         g = S.body_ghosts
-        full = len(g.get("unique", [])) == 2 and len(g.get("argsort", [])) == 2 and g.get("select") and g.get("call:tt_ismember_rows") and g.get("setdiff1d")
+        rg = _row_ghosts(S, A, B)
+        full = rg is not None and g.get("select") and g.get("call:tt_ismember_rows") and g.get("setdiff1d")
         if full:
-            (mA, idxA, invA), (mB, idxB, invB) = g["unique"]
-            (pB, pinvB), (pA, pinvA) = g["argsort"]
+            (mA, idxA, invA), (mB, idxB, invB), (pA, pinvA), (pB, pinvB) = rg
             (_, sel, rk) = g["select"][-1]
             matched, loc = g["call:tt_ismember_rows"][0]
             (_, sdpos, sdslot) = g["setdiff1d"][-1]
